@@ -712,7 +712,15 @@ func (ctx *actorContext) onTerminate(gracefully bool) {
 }
 
 func (ctx *actorContext) onTerminated(terminated *OnTerminated) {
-	delete(ctx.children, terminated.TerminatedActor.GetLogicalAddress())
+	// a terminated child is unregistered before its notice is sent: while a living actor is still registered under the
+	// address, the notice concerns an earlier holder of the address (or answers a watch request made before the child
+	// was spawned) and the present child stays
+	address := terminated.TerminatedActor.GetLogicalAddress()
+	if child, exist := ctx.children[address]; exist {
+		if process, isActor := ctx.system.rc.GetProcess(child).(*actorProcess); !isActor || process.IsTerminated() {
+			delete(ctx.children, address)
+		}
+	}
 
 	ctx.processMessage(ctx.sender, ctx.ref, terminated, false)
 	switch ctx.status.Load() {
